@@ -319,6 +319,84 @@ func (c *c09lCtx) loop(fs *ast.ForStmt) (*c09lLoop, error) {
 	return l, nil
 }
 
+// flat prints a statement list as a skeleton: loops / ifs contribute a header line and their (indented) bodies, every other
+// statement is printed whole (whitespace-normalised).  Used for the BLOCK-level functions, whose text is pinned in Lean.
+func (c *c09lCtx) flat(list []ast.Stmt, ind string, out *[]string) {
+	for _, s := range list {
+		switch v := s.(type) {
+		case *ast.ForStmt:
+			h := ind + "for "
+			if v.Init != nil {
+				h += c.str(v.Init)
+			}
+			h += "; "
+			if v.Cond != nil {
+				h += c.str(v.Cond)
+			}
+			h += "; "
+			if v.Post != nil {
+				h += c.str(v.Post)
+			}
+			*out = append(*out, h)
+			c.flat(v.Body.List, ind+". ", out)
+		case *ast.RangeStmt:
+			k, val := "_", "_"
+			if v.Key != nil {
+				k = c.str(v.Key)
+			}
+			if v.Value != nil {
+				val = c.str(v.Value)
+			}
+			*out = append(*out, ind+"for "+k+", "+val+" := range "+c.str(v.X))
+			c.flat(v.Body.List, ind+". ", out)
+		case *ast.IfStmt:
+			h := ind + "if "
+			if v.Init != nil {
+				h += c.str(v.Init) + "; "
+			}
+			*out = append(*out, h+c.str(v.Cond))
+			c.flat(v.Body.List, ind+". ", out)
+			if v.Else != nil {
+				*out = append(*out, ind+"else")
+				if eb, ok := v.Else.(*ast.BlockStmt); ok {
+					c.flat(eb.List, ind+". ", out)
+				} else {
+					c.flat([]ast.Stmt{v.Else}, ind+". ", out)
+				}
+			}
+		case *ast.SwitchStmt:
+			*out = append(*out, ind+"switch "+c.str(v.Tag))
+			for _, cc := range v.Body.List {
+				cl := cc.(*ast.CaseClause)
+				lbl := "default"
+				if len(cl.List) > 0 {
+					ps := []string{}
+					for _, e := range cl.List {
+						ps = append(ps, c.str(e))
+					}
+					lbl = "case " + strings.Join(ps, ", ")
+				}
+				*out = append(*out, ind+lbl)
+				c.flat(cl.Body, ind+". ", out)
+			}
+		case *ast.BlockStmt:
+			c.flat(v.List, ind, out)
+		default:
+			*out = append(*out, ind+c.str(s))
+		}
+	}
+}
+
+func (c *c09lCtx) flatFunc(name string) ([]string, error) {
+	fd := c09lFunc(c.file, name)
+	if fd == nil || fd.Body == nil {
+		return nil, fmt.Errorf("canvas.go: func %s not found", name)
+	}
+	out := []string{}
+	c.flat(fd.Body.List, "", &out)
+	return out, nil
+}
+
 func c09lTuple(xs ...string) string { return "(" + strings.Join(xs, ", ") + ")" }
 func c09lI(n int) string             { return strconv.Itoa(n) }
 func c09lQ(s string) string          { return strconv.Quote(s) }
@@ -846,6 +924,36 @@ func c09Loops(repo, out string, args []string) error {
 		qs[i] = c09lQ(s)
 	}
 	fmt.Fprintf(&b, "/-- one label per statement of the innermost loop body after the block step -/\ndef cellBodyShape : List String := [\n  %s]\n\n", strings.Join(qs, ",\n  "))
+	// ---- block level: the functions whose text the model of the canvas filling / block enumeration / weld transcribes ----
+	for _, fnName := range []string{"fieldBounds", "chunkSectionsInRange", "canvasPosToChunkPos", "AddField", "addFloat1Range", "chunkIndex_atomic", "MarchOnAttribute", "March"} {
+		lines, err := c.flatFunc(fnName)
+		if err != nil {
+			return err
+		}
+		qs := make([]string, len(lines))
+		for i, l := range lines {
+			qs[i] = c09lQ(l)
+		}
+		fmt.Fprintf(&b, "/-- `%s`: statement skeleton (loops / ifs as header + indented body, other statements printed whole) -/\ndef src_%s : List String := [\n  %s]\n\n", fnName, fnName, strings.Join(qs, ",\n  "))
+	}
+	// top-level statements of marchFloat1BlockPosition before / after the cell loops (an early return would show here)
+	pro := []string{}
+	for _, st := range fn.Body.List {
+		if _, isFor := st.(*ast.ForStmt); isFor {
+			pro = append(pro, c09lQ("<cell loops>"))
+			continue
+		}
+		if as, ok := st.(*ast.AssignStmt); ok && len(as.Lhs) == 1 {
+			pro = append(pro, c09lQ(c.str(as.Lhs[0])+" "+as.Tok.String()+" .."))
+			continue
+		}
+		if _, ok := st.(*ast.ReturnStmt); ok {
+			pro = append(pro, c09lQ("return .."))
+			continue
+		}
+		return fmt.Errorf("%s: unexpected top-level statement `%s` in marchFloat1BlockPosition", c.at(st), c.str(st))
+	}
+	fmt.Fprintf(&b, "/-- top-level statements of `marchFloat1BlockPosition` (labels) -/\ndef blockPrologue : List String := %s\n\n", c09lList(pro))
 	b.WriteString("end PolyVerif.Gen.MarchLoops\n")
 	return os.WriteFile(out, []byte(b.String()), 0o644)
 }
